@@ -716,6 +716,16 @@ def dest_connect_errors(k: Kit, rule: str) -> None:
                         hs |= {dotted(t) for t in (
                             h.type.elts if isinstance(h.type, ast.Tuple)
                             else [h.type])} if h.type is not None else {'*'}
+        rep.check(bool(hs & {'UnicodeError', 'ValueError', 'Exception',
+                             '*'}), rule,
+                  key(fi, 'host name errors become ChannelOpenError'),
+                  'UnicodeError of the connect is converted',
+                  'the destination host of a direct-tcpip open is a string '
+                  'of the peer: for "a..b" or a 64-character label the idna '
+                  'codec raises UnicodeError inside create_connection, '
+                  'which is not converted - the whole SSH connection is '
+                  'dropped instead of refusing that one channel',
+                  fi.loc(c))
         rep.check('OSError' in hs and bool(hs & {
             'OverflowError', 'ArithmeticError', 'Exception', '*'}), rule,
             key(fi, 'connect errors become ChannelOpenError'),
@@ -904,3 +914,6 @@ def run(idx, rep, tier):
                   'answers the second with "TCP/IP listener not found" and '
                   'disconnects - every other listener and forward on the '
                   'connection goes with it', k.loc(_fi, _n))
+    from .shared import share
+    from . import wire as _wire
+    share(k, 'C20.R16', 'channel open messages of forwarded connections have the documented fields (= rows of C02.R1): forwarded-streamlocal@openssh.com carries path and reserved string, written and read', _wire.r1, keep=lambda key: 'streamlocal' in key or 'forwarded' in key or 'direct' in key, args=('C20.R16',))
